@@ -249,6 +249,40 @@ def run(ctx):
     tfm = [f for f in P.fns.values() if f.short == 'total_free_memory' and 'buddy_allocator' in (f.record or '')]
     ctx.check(len(mfc) == 1 and len(tfm) == 1 and bool(q.loops(tfm[0])) and not [w for w in mfc[0].all_nodes() if mfc[0].N(w)['k'] == 'CompoundAssignOperator' and mfc[0].N(w).get('op') == '+='], R5,
               'buddy_allocator:max_free_chunk-is-not-a-sum', 'max_free_chunk accumulates sizes (it would equal the total free memory)', mfc[0].where if mfc else nem.where)
+    # ---------------- R6 a node block whose construction fails goes back to the allocator
+    R6 = ctx.rule('C08.R6', 'hash_map node allocation: the block obtained from the (shared-memory) allocator is constructed inside a try whose catch-all gives the same block back and rethrows - a failed key / value '
+                            'copy under memory pressure must not leak the node (capacity would shrink with every such episode)')
+    als = sorted([g for g in P.fns.values() if g.short == 'allocate' and (g.record or '').split('<')[0] == 'cppcms::impl::details::basic_map' and g.body is not None], key=lambda g: g.id)
+    ctx.require(len(als) >= 1, 'C08.R6: basic_map::allocate not found')
+    seen6 = set()
+    for g in als:
+        key6 = 'basic_map::allocate/%d' % len(g.params)
+        got = [i for i in g.calls() if q.short_of(g.callee(i) or '') == 'allocate' and g.obj(i) is not None]
+        news = [i for i in g.all_nodes() if g.N(i)['k'] == 'CXXNewExpr']
+        tries = [i for i in g.all_nodes() if g.N(i)['k'] == 'CXXTryStmt']
+        ok6 = len(got) == 1 and len(news) == 1
+        why6 = 'one allocator call and one placement construction expected'
+        if ok6:
+            pvar = [d['ref'] for i in g.all_nodes() if g.N(i)['k'] == 'DeclStmt' for d in g.N(i)['decls'] if d.get('init') is not None and g.contains(d['init'], got[0]) or (d.get('init') is not None and g.strip(d['init']) == got[0])]
+            cover = [t for t in tries if g.contains(g.N(t)['body'], news[0])]
+            ok6 = len(pvar) == 1 and len(cover) == 1
+            why6 = 'the construction of the node is not guarded by a try block'
+            if ok6:
+                hs = g.N(cover[0]).get('handlers') or []
+                okh = False
+                for h_ in hs:
+                    if g.N(h_).get('ctype') not in ('...', None, ''):
+                        continue
+                    de = [i for i in g.calls(h_) if q.short_of(g.callee(i) or '') == 'deallocate' and pvar[0] in g.subtree_refs(i)]
+                    rethrow = [i for i in g.walk(h_) if g.N(i)['k'] == 'CXXThrowExpr' and not g.N(i)['ch']]
+                    okh = okh or (len(de) >= 1 and len(rethrow) >= 1)
+                ok6 = okh
+                why6 = 'the catch-all does not give the block back to the allocator and rethrow'
+        if key6 in seen6 and ok6:
+            continue
+        seen6.add(key6)
+        ctx.check(ok6, R6, key6 + ':failed-construction-returns-the-block', why6, g.where)
+    ctx.floor(R6, 1)
     ctx.floor(R1, 2 * 5)
     ctx.floor(R2, 2 * 5)
     ctx.floor(R3, 2 * 8)
